@@ -1396,6 +1396,21 @@ void Validator::ValidatorImpl::validateUnitsUnitsItem(size_t index, const UnitsP
     double multiplier;
 
     units->unitAttributes(index, reference, prefix, exponent, multiplier, id);
+    // An exponent or a multiplier set through the API may be infinite or not a number, which no real number string can represent.
+    if (!std::isfinite(exponent)) {
+        auto issue = Issue::IssueImpl::create();
+        issue->mPimpl->setDescription("Unit referencing '" + reference + "' in units '" + units->name() + "' has an exponent which is not a finite number.");
+        issue->mPimpl->mItem->mPimpl->setUnitsItem(UnitsItem::create(units, index));
+        issue->mPimpl->setReferenceRule(Issue::ReferenceRule::UNIT_ATTRIBUTE_EXPONENT_VALUE);
+        addIssue(issue);
+    }
+    if (!std::isfinite(multiplier)) {
+        auto issue = Issue::IssueImpl::create();
+        issue->mPimpl->setDescription("Unit referencing '" + reference + "' in units '" + units->name() + "' has a multiplier which is not a finite number.");
+        issue->mPimpl->mItem->mPimpl->setUnitsItem(UnitsItem::create(units, index));
+        issue->mPimpl->setReferenceRule(Issue::ReferenceRule::UNIT_ATTRIBUTE_MULTIPLIER_VALUE);
+        addIssue(issue);
+    }
     if (isCellmlIdentifier(reference)) {
         ModelPtr model = owningModel(units);
         if (model->hasUnits(reference) && !isStandardUnitName(reference)) {
